@@ -50,6 +50,7 @@ type world struct {
 	nefBytes  []byte                       // NEF of U
 	mfNew     []byte                       // manifest of a not yet deployed U instance "UD"
 	mfUA      []byte                       // manifest of UA (for update)
+	menus     map[smartcontract.ParamType][]argv
 }
 
 // ---- raw contract R: one method per system call ------------------------------------
@@ -213,7 +214,7 @@ func newWorld() (*world, error) {
 		n.Close()
 		return nil, err
 	}
-	w := &world{runner: runner{n: n}, cw: cw, UA: cw.UA.Hash, UB: cw.UB.Hash}
+	w := &world{runner: runner{n: n}, cw: cw, UA: cw.UA.Hash, UB: cw.UB.Hash, menus: map[smartcontract.ParamType][]argv{}}
 	fail := func(what string, err error) (*world, error) {
 		n.Close()
 		return nil, fmt.Errorf("%s: %w", what, err)
